@@ -37,9 +37,13 @@ CLAIMED.update({
         text='Theorems (all tables, all entry sequences, all byte strings via decompose): the decoder loop outputs the heading and one '
              'line per non-zero 8-byte entry in order, trailing partial entry ignored; first-match rule (as is / reported flag cleared); '
              'parameters are the designated PTE bytes; timestamp H:MM:SS / dashes; sequence number and PTE shown parse back. Pins: entry '
-             'size and the four masks. Correspondence: both shipped tables (independent header reader vs PTETable; entries hitting every '
-             'pattern, reported variants, random) and synthetic tables written to temporary header files.',
-        note=BASE + 'The % operator is modelled by pyFmt for the subset used by the shipped tables and is opaque in the theorems; the header-file regex is tied by correspondence only.',
+             'size and the four masks. The header LOADER is modelled (backtracking regex matcher with re semantics, the three patterns as ASTs, the '
+             'in_table line loop, _add_entry) and proved: a printed table loads back to its normal form (pte_header_roundtrip, well-formedness '
+             'decidable, incl. the condition on quotes that TBL_ENTRY_RE needs), fullmatch of an entry line in any blank layout yields exactly the five '
+             'groups, lines outside the table and non-matching lines contribute nothing, header file -> decoded lines end to end. '
+             'Correspondence: Lean loader vs PTETable(path).entries (five fields) on shipped, synthetic and adversarial header files and the three '
+             'patterns line by line; decoding with model-loaded tables (entries hitting every pattern, reported variants, random) on shipped and synthetic tables.',
+        note=BASE + 'The % operator is modelled by pyFmt for the subset used by the shipped tables and is opaque in the theorems; that the hand-written regex ASTs denote the repo\'s pattern strings, and that the matcher has CPython\'s semantics, is tied by correspondence only.',
         technique='Lean 4 proof (induction over entries, loop = declarative spec) + differential correspondence',
         ref='§4 C14'),
     'C15': dict(
@@ -47,16 +51,21 @@ CLAIMED.update({
              'back exactly; an entry is rejected iff truncated/oversized/trailer mismatch; the loop shows exactly the entries starting before '
              'the declared size and stops at the first unreadable one; string choice = first exact else LAST partial; rendering rule '
              '(warning, dump iff binary/none/partial); end-to-end round trip. Pins: SIZE, FIXED_SIZE, MAX_DATA_LEN, TYPE_FIELDBIN, MAX_ARGS. '
-             'Correspondence: shipped and synthetic string files, generated buffers incl. corrupted entries, truncation at every offset.',
-        note=BASE + 'The % operator is modelled by pyFmt and opaque in the theorems; the string-file regex and ascii/ignore decoding are tied by correspondence only.',
+             'The string-file LOADER is modelled (backtracking matcher, LINE_RE as an AST, the line loop, _add_trace_string) and proved: a printed file loads back '
+             '(string_file_roundtrip; the greedy (.*) cuts at the LAST ||), groups of a line in any layout, non-matching lines are skipped, file -> chosen string. '
+             'Correspondence: Lean loader vs TraceStringFile(path).trace_strings on shipped, synthetic and adversarial string files, LINE_RE line by line; '
+             'generated buffers incl. corrupted entries, truncation at every offset, decoded with model-loaded string lists.',
+        note=BASE + 'The % operator is modelled by pyFmt and opaque in the theorems; that the LINE_RE AST denotes the repo\'s pattern string (and the matcher CPython\'s semantics) and ascii/ignore decoding are tied by correspondence only.',
         technique='Lean 4 proof (well-founded loop = declarative prefix, accumulator invariant for the string choice) + differential correspondence',
         ref='§4 C15'),
     'C16': dict(
         text='Theorems: the dump part is the lossless hex dump of all bytes (parses back); the field loop with its break equals the '
              'declarative rule (offset = sum of preceding widths, stop at first field that does not fit, listed iff non-zero, zero-padded '
-             'to twice the width); shown value parses back. Correspondence: both shipped field tables (independent reader) and synthetic ones, '
-             'every length from 0 past the full record.',
-        note=BASE + 'The header-file regex is tied by correspondence only.',
+             'to twice the width); shown value parses back. The field-table LOADER is modelled (backtracking matcher, the three patterns as ASTs, the line loop) and '
+             'proved: a printed table loads back (hlog_header_roundtrip), groups of a field line in any blank layout, lines outside the array and non-matching '
+             'lines contribute nothing, header file -> field lines. Correspondence: Lean loader vs get_hlog_fields(path) on shipped, synthetic and adversarial '
+             'headers and the three patterns line by line; both shipped field tables and synthetic ones (model-loaded), every length from 0 past the full record.',
+        note=BASE + 'That the hand-written regex ASTs denote the repo\'s pattern strings, and that the matcher has CPython\'s semantics, is tied by correspondence only.',
         technique='Lean 4 proof (induction over the field list with an offset invariant) + differential correspondence',
         ref='§4 C16'),
     'C17': dict(
